@@ -666,23 +666,35 @@ func vRunLife(c *vCase) {
 			x.stop(1)
 			x.afterStop()
 		}
-	case l.selfEnd != nil || kind == "erroring":
+	case l.selfEnd != nil || kind == "erroring" || (kind == "roach-udp" && scen >= 4):
+		// (Roach, scenario 4: the source ends itself on a TIMEOUT - the sender falls silent and the reader gives up after its 2 s keep-alive)
+		timeoutEnd := kind == "roach-udp"
+		if timeoutEnd {
+			l.selfEnd = func() { l.feed(false) }
+			defer func() { l.selfEnd = nil }()
+		}
 		// self-termination vs Stop
 		pairs := [][2]string{{"", ""}, {"core.exit.err", "stop.enter"}, {"core.exit.closed", "stop.enter"}, {"deactivate.enter", "stop.enter"}, {"deactivate.enter", "stop.signalled"},
 			{"stop.enter", "deactivate.enter"}, {"stop.signalled", "core.exit.err"}, {"stop.signalled", "core.exit.closed"}, {"stop.enter", "core.exit.err"}, {"stop.waited", "deactivate.enter"}}
 		pr := pairs[r.Intn(len(pairs))]
 		cycles := 1 + r.Intn(2)
+		if timeoutEnd {
+			cycles = 1
+		}
 		for cyc := 0; cyc < cycles && !x.dead; cyc++ {
 			if !x.start(true) {
 				break
 			}
 			writing := false
-			if l.selfEnd != nil && scen%2 == 0 {
+			if l.selfEnd != nil && (scen%2 == 0 || (timeoutEnd && vChance(r, 0.5))) {
 				writing = startWriting()
 			}
 			ord.set(pr[0], pr[1])
 			c.Describe("order %s until %s writing=%v", pr[0], pr[1], writing)
 			settle := scen >= 3 // Stop only after the source has ended itself and settled
+			if timeoutEnd {
+				settle = vChance(r, 0.5)
+			}
 			if l.selfEnd != nil {
 				l.selfEnd()
 			}
@@ -692,7 +704,14 @@ func vRunLife(c *vCase) {
 				}
 				c.Cov("stops_after_self_termination", 1)
 			} else {
+				if timeoutEnd {
+					time.Sleep(time.Duration(1900+r.Intn(300)) * time.Millisecond) // Stop arrives around the moment the keep-alive expires
+				}
 				c.Cov("stops_racing_self_termination", 1)
+			}
+			if timeoutEnd {
+				c.Cov("self_terminations_by_timeout", 1)
+				l.feed(true)
 			}
 			x.stop(1 + r.Intn(3))
 			ord.set("", "")
